@@ -24,6 +24,7 @@ type c12Case struct {
 	RefusedAt  []int     `json:"refusedAt,omitempty"`    // before these envelopes (index >= 1, no TLS) the peer writes a relative of the previous envelope that the decoder refuses (its id is a number): Receive answers it with an error, and the envelopes around it are unaffected
 	LimitSlack int       `json:"limitSlack,omitempty"`   // > 0: the receiver's ReadLimit is the largest frame of the stream plus this many bytes (it bounds one envelope, not the connection)
 	TLS12      bool      `json:"tls12,omitempty"`        // TLS capped at version 1.2
+	EOFGlued   bool      `json:"eofGlued,omitempty"`     // the receiver's connection reports the end of the stream together with the last bytes it hands over (legal for a reader; several envelopes can come with it)
 	SenderEnd  bool      `json:"senderCloses,omitempty"` // the sender closes its transport right after its last Send (under TLS the close notification follows the data at once)
 	WritePlan  []Fault   `json:"writePlan,omitempty"`    // consumed by the sender's connection writes
 	ReadPlan   []Fault   `json:"readPlan,omitempty"`     // consumed by the receiver's connection reads
@@ -96,6 +97,7 @@ func runC12(c *c12Case) *c12Obs {
 		capacity = 1 << 20
 	}
 	cl, sv := Pipe(PipeOpts{Capacity: capacity, Capture: true})
+	sv.EOFWithData = c.EOFGlued
 	var scfg, ccfg *lime.TCPConfig
 	if c.TLS {
 		if c.TLS12 {
@@ -328,6 +330,9 @@ func judgeC12(c *c12Case, obs *c12Obs, o *Outcome) {
 	if c.SenderEnd {
 		o.Class("sender-closes-after-its-last-send")
 	}
+	if c.EOFGlued {
+		o.Class("end-of-stream-reported-with-the-last-bytes")
+	}
 	if c.LimitSlack > 0 {
 		o.Class("read-limit-just-above-the-largest-frame")
 	}
@@ -553,6 +558,10 @@ func TestC12Sweep(t *testing.T) {
 				run(&c12Case{Stream: big, TLS: true, TLS12: tls12, SenderEnd: true, Coalesce: coalesce, ReadChunk: chunk})
 				if !tls12 {
 					run(&c12Case{Stream: st, SenderEnd: true, Coalesce: coalesce, ReadChunk: chunk})
+					// ... a plain connection that reports the end together with its last bytes: with everything in one read,
+					// every envelope comes with the end
+					run(&c12Case{Stream: st, SenderEnd: true, EOFGlued: true, Coalesce: coalesce, ReadChunk: chunk})
+					run(&c12Case{Stream: long, SenderEnd: true, EOFGlued: true, Coalesce: coalesce, ReadChunk: chunk * 50})
 				}
 			}
 		}
@@ -662,6 +671,7 @@ func TestC12(t *testing.T) {
 			c.TLS12 = rapid.Bool().Draw(rt, "tls12")
 		}
 		c.SenderEnd = rapid.IntRange(0, 2).Draw(rt, "senderCloses") == 0
+		c.EOFGlued = c.SenderEnd && rapid.Bool().Draw(rt, "eofGlued")
 		if !c.TLS && n > 1 && rapid.IntRange(0, 3).Draw(rt, "refused") == 0 {
 			k := rapid.IntRange(1, 3).Draw(rt, "nrefused")
 			for j := 0; j < k; j++ {
